@@ -15,6 +15,8 @@ struct V {
     helpers: Vec<(String, usize)>,
     /// the hash values of the current function: `u64` parameters and locals bound to a whole-string hash
     hash_vars: Vec<String>,
+    /// closures bound to a local (`let rehash = |key| ..;`) and handed to the table by name
+    closure_lets: std::collections::HashMap<String, syn::ExprClosure>,
 }
 
 /// the `u64` parameters of a function (a helper that is handed the hash by its caller)
@@ -156,6 +158,15 @@ impl V {
             _ => false,
         }
     }
+    /// a closure argument, written in place or bound to a local before
+    fn as_closure(&self, e: &syn::Expr) -> Option<syn::ExprClosure> {
+        match e {
+            syn::Expr::Closure(c) => Some(c.clone()),
+            syn::Expr::Path(_) => self.closure_lets.get(&toks(e)).cloned(),
+            syn::Expr::Reference(r) => self.as_closure(&r.expr),
+            _ => None,
+        }
+    }
     fn push(&mut self, kind: &str, shape: &str, text: &str) {
         self.sites.push(format!(
             "{{ file := {}, func := {}, kind := {kind}, shape := {shape}, text := {} }}",
@@ -170,6 +181,7 @@ impl<'ast> Visit<'ast> for V {
     fn visit_impl_item_fn(&mut self, f: &'ast syn::ImplItemFn) {
         let old = std::mem::replace(&mut self.func, f.sig.ident.to_string());
         let old_vars = std::mem::replace(&mut self.hash_vars, u64_params(&f.sig));
+        self.closure_lets.clear();
         syn::visit::visit_impl_item_fn(self, f);
         self.func = old;
         self.hash_vars = old_vars;
@@ -177,6 +189,7 @@ impl<'ast> Visit<'ast> for V {
     fn visit_item_fn(&mut self, f: &'ast syn::ItemFn) {
         let old = std::mem::replace(&mut self.func, f.sig.ident.to_string());
         let old_vars = std::mem::replace(&mut self.hash_vars, u64_params(&f.sig));
+        self.closure_lets.clear();
         syn::visit::visit_item_fn(self, f);
         self.func = old;
         self.hash_vars = old_vars;
@@ -189,6 +202,9 @@ impl<'ast> Visit<'ast> for V {
         };
         if let syn::Pat::Ident(pi) = pat {
             if let Some(init) = &l.init {
+                if let syn::Expr::Closure(c) = &*init.expr {
+                    self.closure_lets.insert(pi.ident.to_string(), c.clone());
+                }
                 let whole = whole_string_hash(&init.expr, &self.helpers).is_some();
                 if pi.ident == "hash" || whole {
                     let shape = if whole { ".hashOneWhole" } else { ".other" };
@@ -226,15 +242,17 @@ impl<'ast> Visit<'ast> for V {
             self.push(".call", shape, &toks(m));
         } else if matches!(name.as_str(), "insert_with_hasher" | "find_or_find_insert_slot" | "shrink_to" | "shrink_to_fit") {
             if name == "find_or_find_insert_slot" {
-                if let Some(syn::Expr::Closure(c)) = m.args.iter().nth(1) {
+                if let Some(c) = m.args.iter().nth(1).and_then(|a| self.as_closure(a)) {
+                    let c = &c;
                     let ok = closure_result(c).map(|r| self.is_whole_string_eq(r, c)).unwrap_or(false);
                     self.push(".probeEq", if ok { ".hashOneWhole" } else { ".other" }, &toks(c));
                 }
             }
             // the closure the table calls to re-hash an entry when it grows or shrinks: it has to hash the
             // whole string of the entry it is given (a string it binds itself, not a captured value)
-            let ok = match m.args.last() {
-                Some(syn::Expr::Closure(c)) => match closure_result(c).and_then(|r| whole_string_hash(r, &self.helpers)) {
+            let last_closure = m.args.last().and_then(|a| self.as_closure(a));
+            let ok = match &last_closure {
+                Some(c) => match closure_result(c).and_then(|r| whole_string_hash(r, &self.helpers)) {
                     Some(arg) => {
                         let a = toks(arg).trim_start_matches('&').trim().to_string();
                         closure_bound(c).contains(&a)
@@ -243,11 +261,12 @@ impl<'ast> Visit<'ast> for V {
                 },
                 _ => false,
             };
-            let t = m.args.last().map(|a| toks(a)).unwrap_or_default();
+            let t = last_closure.as_ref().map(|c| toks(c)).or_else(|| m.args.last().map(|a| toks(a))).unwrap_or_default();
             self.push(".rehash", if ok { ".hashOneWhole" } else { ".other" }, &t);
         } else if name == "from_hash" || name == "from_key_hashed_nocheck" {
             // the equality closure of the probe: `<probe string> == <string of the stored key>`, nothing else
-            if let Some(syn::Expr::Closure(c)) = m.args.iter().nth(1) {
+            if let Some(c) = m.args.iter().nth(1).and_then(|a| self.as_closure(a)) {
+                let c = &c;
                 let ok = closure_result(c).map(|r| self.is_whole_string_eq(r, c)).unwrap_or(false);
                 self.push(".probeEq", if ok { ".hashOneWhole" } else { ".other" }, &toks(c));
             }
@@ -274,7 +293,7 @@ pub fn is_hash_helper(name: &str) -> bool {
 }
 
 pub fn emit(src: &Path, out: &mut String) {
-    let mut v = V { file: String::new(), func: String::new(), sites: Vec::new(), helpers: Vec::new(), hash_vars: Vec::new() };
+    let mut v = V { file: String::new(), func: String::new(), sites: Vec::new(), helpers: Vec::new(), hash_vars: Vec::new(), closure_lets: Default::default() };
     // first pass: private helpers that are nothing but `hasher.hash_one(string)`
     for f in ["rodeo.rs", "reader.rs", "threaded_rodeo.rs", "util.rs"] {
         let path = src.join(f);
